@@ -328,8 +328,15 @@ def handle_gen(rng, tier):
                 dl = " dl=%d" % rng.choice([1200, 1600, 2500])
                 delayed_budget -= 1
                 tag = "s"
-            out.append("%s%d cfg=%s l=%s client=%s q=%s up=%s%s%s" % (tag, idx, spec, l, client, gens.hx(q), up, dl,
-                                                             hv if (l.startswith("http") or l.startswith("fasthttp")) else ""))
+            ka = ""
+            if tag == "h" and not l.startswith("udp") and (client == "-" or l.startswith("http") or l.startswith("fasthttp")) \
+                    and rng.random() < 0.45:
+                # the query travels on a PERSISTENT client connection shared by all such cases of the configuration (tcp /
+                # gnet / tls connection, HTTP keep-alive, HTTP/2 session, QUIC connection): the second and later query on a
+                # connection must be answered exactly like the first (the model is per request)
+                ka = " ka=1"
+            out.append("%s%d cfg=%s l=%s client=%s q=%s up=%s%s%s%s" % (tag, idx, spec, l, client, gens.hx(q), up, dl,
+                                                             hv if (l.startswith("http") or l.startswith("fasthttp")) else "", ka))
         if ci == 1:
             # one SILENT-upstream query on every listener kind (the SERVFAIL after the 6 s deadline must be delivered on each)
             for l in ("udp", "tcp", "gnet", "tls", "quic", "http-post", "http-get", "fasthttp-post", "https-post", "https-get"):
